@@ -149,6 +149,15 @@ func (g *gen) one(x exchange) {
 	kind, what := verdict(x, o)
 	desc := map[string]interface{}{"kind": "exchange", "stack": x.Stack, "cfg": x.Cfg, "req": x.Req,
 		"script": s, "served_len": len(s.Served), "payload_len": len(s.Payload), "read_sizes": x.Pat, "observed": o}
+	if x.Live {
+		desc["live_client"], desc["opened_under"], desc["exchanges_before"] = x.LiveKey, x.Opened, x.Nth
+	}
+	if x.Via != "" {
+		desc["via"] = x.Via
+	}
+	if x.Twice {
+		desc["same_request_object_twice"] = true
+	}
 	if kind != "" {
 		cor := "valid"
 		if s.Corrupt != "" {
@@ -158,7 +167,14 @@ func (g *gen) one(x exchange) {
 		if x.Cfg.Text {
 			ct = "text"
 		}
-		r.Fail(hk.Failure{Sig: fmt.Sprintf("%s:%s:%s:%s:ce=%s:%s:%s", kind, x.Stack, x.Cfg.name(), x.Req.name(), s.CEClass, cor, ct),
+		tag := ""
+		if x.Live {
+			tag = ":live-opened-" + x.Opened.name()
+		}
+		if x.Via != "" {
+			tag = ":" + x.Via
+		}
+		r.Fail(hk.Failure{Sig: fmt.Sprintf("%s:%s:%s:%s:ce=%s:%s:%s%s", kind, x.Stack, x.Cfg.name(), x.Req.name(), s.CEClass, cor, ct, tag),
 			What: what, Input: desc})
 	}
 	if s.Corrupt != "" && o.Err == "" && o.Fatal == "" && len(o.CE) == 0 && len(s.CE) > 0 && string(o.Body) != string(s.Payload) {
@@ -368,5 +384,8 @@ func (g *gen) run() {
 	g.runShort()
 	// K. one request, several attempts
 	g.runAttempts()
+	// L. settings toggled on live connections;  M. the http3 request-stream API
+	g.runLive()
+	g.runH3Stream()
 	g.flushSeq(len(g.seqCases))
 }
